@@ -362,6 +362,156 @@ def make_modestats(d):
 # ---------------------------------------------------------------------- concrete replays
 
 
+def run_steps(ctx, kernel, u, logl0, atoms, beta, ms, sigmas, draws, assignment, n_iter):
+    """n_iter iterations of the real runner loop (frozen step sizes), one walker attached to mode `assignment`."""
+    cb = Cb(atoms)
+    it = iter(draws)
+
+    def provider(kind, rec):
+        try:
+            want, val = next(it)
+        except StopIteration:
+            raise BoundExceeded("more draws than iterations provide")
+        if want != kind:
+            raise BoundExceeded(f"draw order: expected {want}, code asked for {kind}")
+        return val
+    stub = RandomStub(provider, max_calls=len(draws))
+    proxy = NpProxy(random=stub, exact_log=True, object_constructors=True, overrides={"nan_to_num": lambda a, nan=0.0, **k: a})
+    noadapt = lambda self, c, mean_accept: None
+    sig = lambda self: sarr(list(sigmas))
+    conv = lambda self, acc: self.iteration >= n_iter
+    with patched(mcmc, np=proxy), patched_attr(mcmc.TPCNRunner, _adapt_sigma=noadapt, _initialize_sigmas=sig, _check_convergence=conv), \
+            patched_attr(mcmc.RWMRunner, _adapt_sigma=noadapt, _initialize_sigmas=sig, _check_convergence=conv):
+        out = mcmc.parallel_mcmc(u=sarr([u]), x=sarr([u]), logl=sarr([logl0]), blobs=None, assignments=np.array([assignment], dtype=int),
+                                 beta=float(beta), mode_stats=ms, log_likelihood=cb.log_likelihood, prior_transform=cb.prior_transform,
+                                 n_steps=n_iter, n_max=n_iter, sample=kernel, periodic=None, reflective=None, verbose=False)
+    return out, cb, stub
+
+
+def make_composition(kernel, K, assignment, beta=Fraction(1, 2), nu=3.0):
+    """A run of two iterations must be the composition of two one-iteration runs (same draws, same mode, same step size):
+    nothing computed in iteration 1 (caches, re-attached modes, counters) may influence iteration 2 except through the walker's
+    state. Together with the one-step obligations this extends detailed balance to every iteration of a run with frozen step sizes."""
+    beta = Fraction(beta)
+    D = beta.denominator
+
+    def harness(ctx: PathCtx):
+        u = [real(ctx, "u0", lo=0, hi=1)]
+        ms = sym_mode_stats(ctx, 1, K, nu=nu)
+        sigmas = [real(ctx, f"sigma{k}", lo=0, lo_strict=True, hi=1, hi_strict=True) for k in range(K)]
+        l0, l1, l2 = LogVal.atom("l_cur", D), LogVal.atom("l_prop1", D), LogVal.atom("l_prop2", D)
+        per_it = []
+        for i in (1, 2):
+            z = real(ctx, f"z_{i}")
+            g = real(ctx, f"g_{i}", lo=0, lo_strict=True)
+            r = real(ctx, f"urand_{i}", lo=0, hi=1, hi_strict=True)
+            per_it.append(([("gamma", g)] if kernel == "tpcn" else []) + [("randn", sarr([z])), ("rand", sarr([r]))])
+        try:
+            outA, cbA, stA = run_steps(ctx, kernel, u, l0, [l1, l2], beta, ms, sigmas, per_it[0] + per_it[1], assignment, 2)
+            out1, cb1, st1 = run_steps(ctx, kernel, u, l0, [l1], beta, ms, sigmas, per_it[0], assignment, 1)
+            u_mid = [v for v in np.asarray(out1[0], dtype=object).reshape(-1)]
+            l_mid = np.asarray(out1[2], dtype=object).reshape(-1)[0]
+            out2, cb2, st2 = run_steps(ctx, kernel, u_mid, l_mid, [l2], beta, ms, sigmas, per_it[1], assignment, 1)
+        except BoundExceeded as e:
+            ctx.fail("each-iteration-consumes-one-set-of-draws", str(e))
+            return None
+        ctx.ok("each-iteration-consumes-one-set-of-draws")
+        ctx.check("two-proposals-evaluated", z3.BoolVal(len(cbA.proposals) == 2 and len(cb2.proposals) == 1))
+        if len(cbA.proposals) != 2:
+            return None
+        ctx.check("iteration-2-proposal==one-step-proposal-from-the-state-after-iteration-1", eq(cbA.proposals[1][0], cb2.proposals[0][0]))
+        if kernel == "tpcn":
+            gA = [c for c in stA.calls if c["kind"] == "gamma"]
+            gB = [c for c in st2.calls if c["kind"] == "gamma"]
+            ctx.check("iteration-2-gamma-parameters==one-step-parameters",
+                      z3.And(eq(gA[1]["shape"], gB[0]["shape"]), eq(SymReal.lift(scalar(gA[1]["scale"])), SymReal.lift(scalar(gB[0]["scale"])))))
+        ctx.check("iteration-2-acceptance-probability==one-step-value", eq(scalar(outA[5]), scalar(out2[5])))
+        uA = np.asarray(outA[0], dtype=object).reshape(-1)[0]
+        uB = np.asarray(out2[0], dtype=object).reshape(-1)[0]
+        lA = np.asarray(outA[2], dtype=object).reshape(-1)[0]
+        lB = np.asarray(out2[2], dtype=object).reshape(-1)[0]
+        ctx.check("final-state==composition-of-two-one-step-runs", z3.And(eq(uA, uB), eq(lA.exp(), lB.exp())))
+        ctx.check("likelihood-calls-counted-once-per-iteration", z3.BoolVal(int(outA[7]) == int(out1[7]) + int(out2[7])))
+        return None
+
+    def replay(m, label, v):
+        return replay_composition(kernel, K, assignment, float(beta), nu, m, label)
+
+    return Obligation(f"{kernel}-two-iterations-K{K}-mode{assignment}", harness, replay=replay,
+                      encodes=[mcmc.parallel_mcmc, mcmc.BaseMCMCRunner.run, mcmc.TPCNRunner._propose, mcmc.TPCNRunner._compute_acceptance_factor,
+                               mcmc.RWMRunner._propose, mcmc.check_bounds],
+                      bounds=f"d=1, K={K} symbolic modes, one walker attached to mode {assignment}, two iterations, hard bounds, beta={beta}, nu={nu}, "
+                             "symbolic frozen step sizes, all draws symbolic",
+                      stubs=["np.random.gamma/randn/rand -> symbolic draws", "np.log/np.exp -> exact log-domain algebra",
+                             "_adapt_sigma -> no-op (frozen step sizes), _check_convergence -> stop after the stated number of iterations"],
+                      theory="QF_NRA", timeout_ms=8000, max_paths=4000, allow_domain="division by zero paths are outside the declared positive domains")
+
+
+def replay_composition(kernel, K, assignment, beta, nu, m, label):
+    """float replay: real runner, two iterations vs two one-iteration runs, scripted draws (the model's, then a fixed family)."""
+    from vf.engine.util import scripted_random, seq_provider
+    vals = {k: float(x) for k, x in m.items() if not k.startswith("obs:") and not isinstance(x, (bool, str))}
+    D = Fraction(beta).limit_denominator(64).denominator
+
+    def scenario(i):
+        if i == 0:
+            try:
+                return dict(u0=vals["u0"], mu=[vals[f"mu{k}_0"] for k in range(K)], L=[vals[f"L{k}_00"] for k in range(K)],
+                            sg=[vals[f"sigma{k}"] for k in range(K)], z=[vals["z_1"], vals["z_2"]], g=[vals.get("g_1", 1.0), vals.get("g_2", 1.0)],
+                            r=[vals["urand_1"], vals["urand_2"]],
+                            l=[D * math.log(vals["expatom_l_cur"]), D * math.log(vals["expatom_l_prop1"]), D * math.log(vals["expatom_l_prop2"])])
+            except Exception:
+                return None
+        rng = np.random.RandomState(100 + i)
+        mu = sorted(rng.uniform(0.2, 0.8, K).tolist())
+        return dict(u0=float(rng.uniform(0.3, 0.7)), mu=mu, L=rng.uniform(0.05, 0.4, K).tolist(), sg=rng.uniform(0.3, 0.9, K).tolist(),
+                    z=rng.randn(2).tolist(), g=rng.gamma(2.0, 0.5, 2).tolist(), r=[1e-9, 1e-9], l=[0.0, 0.3, 0.1])
+
+    def run(sc, start, l_start, ls, idx, n_iter):
+        ms = ModeStatistics(np.array(sc["mu"]).reshape(K, 1), (np.array(sc["L"]) ** 2).reshape(K, 1, 1), np.full(K, float(nu)))
+        cls = mcmc.TPCNRunner if kernel == "tpcn" else mcmc.RWMRunner
+        props, gam = [], []
+        lit = iter(ls)
+
+        def pt(q):
+            props.append(float(np.asarray(q, dtype=float).ravel()[0]))
+            return q
+
+        def gamma_spy(shape=None, scale=1.0, size=None, _g=iter([sc["g"][j] for j in idx])):
+            gam.append((float(shape), float(np.asarray(scale).ravel()[0])))
+            return next(_g)
+        with scripted_random(gamma=gamma_spy, randn=seq_provider([np.array([sc["z"][j]]) for j in idx]), rand=seq_provider([np.array([sc["r"][j]]) for j in idx])), \
+                patched_attr(cls, _initialize_sigmas=lambda self: np.array(sc["sg"]), _adapt_sigma=lambda self, c, a_: None,
+                             _check_convergence=lambda self, acc: self.iteration >= n_iter):
+            out = mcmc.parallel_mcmc(u=np.array([[start]]), x=np.array([[start]]), logl=np.array([l_start]), blobs=None,
+                                     assignments=np.array([assignment], dtype=int), beta=beta, mode_stats=ms,
+                                     log_likelihood=lambda x: (np.array([next(lit)]), None), prior_transform=pt, n_steps=n_iter, n_max=n_iter,
+                                     sample=kernel, verbose=False)
+        return float(out[0][0, 0]), float(out[2][0]), float(out[5]), props, gam, int(out[7])
+
+    worst = None
+    for i in range(12):
+        sc = scenario(i)
+        if sc is None:
+            continue
+        try:
+            uA, lA, aA, pA, gA, cA = run(sc, sc["u0"], sc["l"][0], sc["l"][1:], [0, 1], 2)
+            u1, l1_, a1, p1, g1, c1 = run(sc, sc["u0"], sc["l"][0], sc["l"][1:2], [0], 1)
+            u2, l2_, a2, p2, g2, c2 = run(sc, u1, l1_, sc["l"][2:], [1], 1)
+        except Exception as e:
+            worst = (float("inf"), i, f"raised {type(e).__name__}: {e}", sc)
+            break
+        err = max(abs(uA - u2), abs(lA - l2_), abs(aA - a2), abs(pA[1] - p2[0]) if len(pA) == 2 and p2 else float("inf"),
+                  (abs(gA[1][1] - g2[0][1]) if kernel == "tpcn" and len(gA) == 2 and g2 else 0.0), float(cA != c1 + c2))
+        if worst is None or err > worst[0]:
+            worst = (err, i, f"two-iteration run: proposal {pA[1:]} gamma {gA[1:]} alpha {aA} final {uA}; composed one-step runs: proposal {p2} gamma {g2} alpha {a2} final {u2}", sc)
+    err, i, txt, sc = worst
+    return {"reproduced": bool(err > 1e-9), "signature": f"{kernel}:iteration-2-differs-from-a-fresh-step:K{K}",
+            "payload": {"scenario": ("solver model" if i == 0 else f"family member {i}"), "inputs": sc, "max_abs_difference": err},
+            "what": f"{kernel}, K={K}, walker on mode {assignment}: a run of two iterations is not the composition of two one-iteration runs with the same draws "
+                    f"({txt}; max difference {err:.3g}) ({label})"}
+
+
 def _norm_pdf(x, m, s):
     return math.exp(-0.5 * ((x - m) / s) ** 2) / (s * math.sqrt(2 * math.pi))
 
@@ -572,10 +722,12 @@ def obligations(tier):
     H = Fraction(1, 2)
     obs = [make_kernel("tpcn", 1, "interior", 1), make_kernel("tpcn", 1, "interior", H), make_kernel("tpcn", 1, "hard", H), make_kernel("rwm", 1, "hard", 1),
            make_kernel("rwm", 1, "periodic", H), make_kernel("rwm", 1, "reflective", 1), make_kernel("tpcn", 1, "periodic", 1),
-           make_propose_only(1501), make_modestats(1), make_modestats(2), make_kernel("tpcn", 2, "interior", 1)]
+           make_propose_only(1501), make_modestats(1), make_modestats(2), make_kernel("tpcn", 2, "interior", 1),
+           make_composition("tpcn", 1, 0), make_composition("rwm", 2, 1), make_composition("tpcn", 2, 0)]
     if tier == "thorough":
         # (tpCN on a reflective coordinate is not enumerated: the parity forks exhaust the budget; its known finding is the
         #  same defect as on periodic coordinates, which the quick tier reports)
         obs += [make_kernel("tpcn", 1, "interior", H, nu=5.0), make_kernel("tpcn", 1, "periodic", H, wraps=2), make_kernel("tpcn", 2, "interior", H, nu=4.0),
-                make_kernel("rwm", 2, "hard", 1), make_kernel("rwm", 2, "periodic", 1)]
+                make_kernel("rwm", 2, "hard", 1), make_kernel("rwm", 2, "periodic", 1),
+                make_composition("tpcn", 2, 1, nu=5.0), make_composition("rwm", 1, 0, beta=1), make_composition("rwm", 2, 0)]
     return obs
